@@ -20,24 +20,83 @@ import (
 
 	"github.com/apernet/quic-go"
 
-	"github.com/apernet/hysteria/core/v2/internal/frag"
 	"github.com/apernet/hysteria/core/v2/internal/protocol"
 	"verif.local/engine/enum"
 	"verif.local/engine/evidence"
+	"verif.local/engine/vpriv"
 )
 
 const c05Side = "client"
 
-// c05Send pushes one message through the real send path.
-func c05Send(f *c05IO, bufSize int, addr string, payload []byte) error {
-	u := &udpConn{ID: c05Session, SendBuf: make([]byte, bufSize), SendFunc: f.SendMessage}
-	return u.Send(payload, addr)
+// c05ClientIO is the udpIO of a real udpSessionManager: outbound datagrams go to send, inbound
+// ones are taken from in (closing in ends the manager's receive loop, as a lost connection does).
+type c05ClientIO struct {
+	send func([]byte, *protocol.UDPMessage) error
+	in   chan *protocol.UDPMessage
 }
 
-// c05Receive parses the datagrams in the given order and hands them to the real receive path.
+func (r *c05ClientIO) ReceiveMessage() (*protocol.UDPMessage, error) {
+	m, ok := <-r.in
+	if !ok {
+		return nil, io.EOF
+	}
+	return m, nil
+}
+func (r *c05ClientIO) SendMessage(b []byte, m *protocol.UDPMessage) error { return r.send(b, m) }
+
+// c05NewConn builds a session the way the client does: through the real udpSessionManager and its
+// NewUDP constructor (not a hand-written struct literal: whatever the constructor initialises is
+// initialised). The session id the harness enumerates with is installed through the private
+// nextID counter when that is possible; otherwise c05Session follows the id the manager assigns.
+func c05NewConn(send func([]byte, *protocol.UDPMessage) error, inCap int) (HyUDPConn, *c05ClientIO) {
+	cio := &c05ClientIO{send: send, in: make(chan *protocol.UDPMessage, inCap)}
+	m := newUDPSessionManager(cio)
+	if !vpriv.Set(m, "nextID", uint32(c05Session)) {
+		c05PrivMissing["udpSessionManager.nextID"] = true
+	}
+	conn, err := m.NewUDP()
+	if err != nil {
+		panic("c05: NewUDP: " + err.Error())
+	}
+	return conn, cio
+}
+
+var c05PrivMissing = map[string]bool{}
+
+// c05Send pushes one message through the real send path.
+func c05Send(f *c05IO, bufSize int, addr string, payload []byte) error {
+	first := true
+	conn, cio := c05NewConn(func(b []byte, m *protocol.UDPMessage) error {
+		if first && m.SessionID != c05Session {
+			c05Session = m.SessionID // the manager's own numbering (nextID not settable on this tree)
+		}
+		first = false
+		return f.SendMessage(b, m)
+	}, 1)
+	defer close(cio.in)
+	if bufSize != protocol.MaxUDPSize {
+		// a smaller send buffer than the constructor's (exercises the silent-drop branch)
+		if !vpriv.Set(conn, "SendBuf", make([]byte, bufSize)) {
+			c05PrivMissing["udpConn.SendBuf"] = true
+			return errC05NoBuf
+		}
+	}
+	return conn.Send(payload, addr)
+}
+
+var errC05NoBuf = fmt.Errorf("c05: the send buffer of the session cannot be resized on this tree")
+
+var c05SentinelData = []byte("\x00C05-end-of-input\x00")
+
+// c05Receive parses the datagrams in the given order and hands them to the real receive path: the
+// manager's receive loop feeds them to the session, the harness reads with Receive. An
+// unfragmented end-of-input marker sent behind them tells when everything before it has been
+// processed (the session delivers in order), without relying on how the session signals Close.
 func c05Receive(dgrams [][]byte, order []int) (out []c05Whole, clause string) {
-	u := &udpConn{ID: c05Session, D: &frag.Defragger{}, ReceiveCh: make(chan *protocol.UDPMessage, len(order)+1)}
-	sess := uint32(c05Session)
+	conn, cio := c05NewConn(func([]byte, *protocol.UDPMessage) error { return nil }, len(order)+2)
+	defer close(cio.in)
+	id := c05Session // (c05Send has aligned it with the manager's own numbering when nextID is not settable)
+	sess := id
 	for _, i := range order {
 		m, err := protocol.ParseUDPMessage(c05Fresh(dgrams[i]))
 		if err != nil {
@@ -46,16 +105,24 @@ func c05Receive(dgrams [][]byte, order []int) (out []c05Whole, clause string) {
 		if m.SessionID != c05Session {
 			sess = m.SessionID
 		}
-		u.ReceiveCh <- m
+		m.SessionID = id
+		cio.in <- m
 	}
-	u.ReceiveCh <- nil // closed
+	cio.in <- &protocol.UDPMessage{SessionID: id, FragCount: 1, Addr: "end:0", Data: c05SentinelData}
 	for {
-		data, addr, err := u.Receive()
-		if err == io.EOF {
-			return out, ""
-		}
+		data, addr, err := conn.Receive()
 		if err != nil {
-			return out, "receive error: " + err.Error()
+			return out, "receive error before the end-of-input marker: " + err.Error()
+		}
+		if addr == "end:0" && bytes.Equal(data, c05SentinelData) {
+			_ = conn.Close()
+			if sess == id {
+				sess = c05Session
+			}
+			for i := range out {
+				out[i].Sess = sess
+			}
+			return out, ""
 		}
 		out = append(out, c05Whole{Sess: sess, Addr: addr, Data: data})
 	}
@@ -65,7 +132,7 @@ func TestVerifC05ClientSend(t *testing.T) { c05Main(t) }
 
 // ---- common ------------------------------------------------------------------------------------
 
-const c05Session = 0xA1B2C3D4
+var c05Session uint32 = 0xA1B2C3D4
 
 type c05Whole struct {
 	Sess uint32
@@ -216,6 +283,10 @@ func c05DoSend(c *c05SendCase) (s c05Sent, clause string) {
 	payload := c05Fresh(c05Pattern[:c.Payload])
 	f := &c05IO{limit: c.Limit}
 	err := c05Send(f, c.Buf, addr, payload)
+	if err == errC05NoBuf {
+		s.regime = "skipped:send-buffer-not-resizable"
+		return s, ""
+	}
 	s.dgrams, s.n = f.sent, len(f.sent)
 	hdr := c05RefHeader(c.AddrLen)
 	size := hdr + c.Payload
